@@ -4,13 +4,14 @@ import (
 	"context"
 	"crypto/x509"
 	"fmt"
+	"runtime"
 	"strings"
 	"time"
 
 	"github.com/google/gce-tcb-verifier/cmd/output"
 	"github.com/google/gce-tcb-verifier/gcetcbendorsement"
-	"github.com/google/gce-tcb-verifier/verify"
 	epb "github.com/google/gce-tcb-verifier/proto/endorsement"
+	"github.com/google/gce-tcb-verifier/verify"
 	cpb "github.com/google/go-sev-guest/proto/check"
 	spb "github.com/google/go-sev-guest/proto/sevsnp"
 	"google.golang.org/protobuf/proto"
@@ -56,15 +57,21 @@ type sched struct {
 	prio    []int
 	changes map[int]bool
 	step    int
+	// lock handling (instrumented worker)
+	nblocked int
+	stall    int
+	deadlock bool
+	stuck    bool
 }
 
 type stask struct {
-	id     int
-	resume chan struct{}
-	done   bool
-	steps  int
-	fn     func()
-	panicV any
+	id      int
+	resume  chan struct{}
+	done    bool
+	blocked bool // came back from a failed TryLock: not to be resumed before someone else has run
+	steps   int
+	fn      func()
+	panicV  any
 }
 
 func (s *sched) yield(site string) {
@@ -76,6 +83,20 @@ func (s *sched) yield(site string) {
 	if t.steps > s.maxSteps {
 		return
 	}
+	s.back <- struct{}{}
+	<-t.resume
+}
+
+// blocked is the yield of a task whose TryLock failed (instrumented worker): the task parks
+// whatever its step count and is not picked again until another task has made a step.
+func (s *sched) blocked(site string) {
+	t := s.current
+	if t == nil {
+		runtime.Gosched()
+		return
+	}
+	t.blocked = true
+	s.nblocked++
 	s.back <- struct{}{}
 	<-t.resume
 }
@@ -100,13 +121,32 @@ func (s *sched) run(fns []func()) {
 	s.last = -1
 	for {
 		var runnable []*stask
+		alive := 0
 		for _, t := range s.tasks {
 			if !t.done {
-				runnable = append(runnable, t)
+				alive++
+				if !t.blocked {
+					runnable = append(runnable, t)
+				}
 			}
 		}
-		if len(runnable) == 0 {
+		if alive == 0 {
 			break
+		}
+		if len(runnable) == 0 {
+			// everyone waits for a lock: let them all retry; if a whole round of retries makes no
+			// progress the calls have deadlocked each other
+			s.stall++
+			if s.stall > 2 {
+				s.deadlock = true
+				break
+			}
+			for _, t := range s.tasks {
+				if !t.done {
+					t.blocked = false
+					runnable = append(runnable, t)
+				}
+			}
 		}
 		var pick *stask
 		s.step++
@@ -125,7 +165,7 @@ func (s *sched) run(fns []func()) {
 					pick = t
 				}
 			}
-		} else if s.switchP > 0 && s.last >= 0 && !s.tasks[s.last].done && !s.r.Chance(s.switchP, "switch?") {
+		} else if s.switchP > 0 && s.last >= 0 && !s.tasks[s.last].done && !s.tasks[s.last].blocked && !s.r.Chance(s.switchP, "switch?") {
 			pick = s.tasks[s.last]
 		} else {
 			pick = runnable[s.r.Intn(len(runnable), "pick")]
@@ -139,10 +179,28 @@ func (s *sched) run(fns []func()) {
 		}
 		s.current = pick
 		pick.resume <- struct{}{}
-		<-s.back
+		select {
+		case <-s.back:
+		case <-time.After(stuckAfter):
+			// The task neither finished nor reached a yield point: it waits for something the
+			// scheduler does not control (a lock taken in uninstrumented code, sync.Once, a
+			// channel) that a parked task holds. Not a verdict about the property.
+			s.stuck = true
+			s.current = nil
+			return
+		}
+		if !pick.blocked {
+			// progress: everybody who waited for a lock may try again
+			s.stall = 0
+			for _, t := range s.tasks {
+				t.blocked = false
+			}
+		}
 	}
 	s.current = nil
 }
+
+const stuckAfter = 60 * time.Second
 
 type c09Task struct {
 	measClass string
@@ -325,6 +383,7 @@ func runC09(r *core.Run) {
 		s.maxSteps = 0
 	}
 	setYieldHook(s.yield)
+	setBlockedHook(s.blocked)
 	var fns []func()
 	for _, t := range tasks {
 		t := t
@@ -338,7 +397,20 @@ func runC09(r *core.Run) {
 	}
 	s.run(fns)
 	setYieldHook(nil)
+	setBlockedHook(nil)
 	net.Yield = nil
+	if s.stuck {
+		// goroutines of this run are still parked or blocked: nothing further can be said
+		r.HarnessErr = fmt.Sprintf("C09: a task neither finished nor reached a yield point within %v (schedule %s): it waits for a primitive the scheduler does not control while its holder is parked", stuckAfter, core.Short(string(s.picks), 60))
+		return
+	}
+	if s.nblocked > 0 {
+		r.Probes["lock-contended"] += s.nblocked
+	}
+	if s.deadlock {
+		r.Fail("result-differs-from-isolation", "deadlock", "the concurrent calls wait for each other's locks for ever (schedule %s): no call completes, each completes in isolation", core.Short(string(s.picks), 80))
+		return
+	}
 	sig := string(s.picks)
 	r.Eval(fmt.Sprintf("shape%d|n%d|%s", shape, nTasks, sig), s.switches > 0)
 	r.Eventf("schedule shape=%d tasks=%d switches=%d picks=%d successive=%v", shape, nTasks, s.switches, len(s.picks), successive)
